@@ -9,10 +9,10 @@ import (
 
 func init() {
 	register(&propDef{
-		ID:    "C03",
-		Level: "other",
+		ID:      "C03",
+		Level:   "other",
 		Explain: "Structural necessary conditions of 'most specific matching route': (N1) in every Table method that selects host keys for a request, the request-host operand and the pattern operand of the comparison / glob match pass through the same normaliser chain (lower-casing and default-port removal) — an upper-case Host header must match whether or not glob matching is enabled; (K1) every index/update/delete on a route.Table uses a canonical (lower-cased) host key; (O1) both table constructors sort each host's routes (sort.Sort on every Routes value) on every successful return and dispatch the same command set; (O2) each host matcher returns its host list through the reverse-host sort; (O3) in Table.Lookup the host-less key \"\" is appended after the matched hosts and the loop stops at the first host that yields a target (except the self-redirect continue); (L1) Table.lookup lower-cases its key and returns at the first route the matcher accepts, 'no targets' yielding nil, and the host matchers compare against every key of the table. (L1, extended) every route of the host is offered to the configured matcher: no path from the loop body back to the loop head skips the match call (no pre-filter); Not decided: that reversed-name order equals DNS specificity and the truth tables of the prefix/iprefix/glob matchers (string order, third-party glob semantics).",
-		Run:   runC03,
+		Run:     runC03,
 		Trusted: []string{"sort.Sort orders by Less; Routes.Less orders paths descending", "gobwas/glob matching"},
 		Mutants: []mutant{
 			{Name: "length pre-filter before the matcher", File: "route/table.go", Old: "\t\tif match(path, r) {", New: "\t\tif len(r.Path) > len(path) {\n\t\t\tcontinue\n\t\t}\n\t\tif match(path, r) {", Expect: "C03.L1"},
